@@ -28,6 +28,69 @@ use vh::aik::{self, AddError, MemProject};
 use vh::tj;
 use vh::util::{guarded, trunc, variant_name};
 
+// ---- the framework reports simplification progress only on stderr ("Simplified counterexample
+// in 2ms after 57 steps"): stderr is redirected to a scratch file so that the step counts of
+// the (sequential) reference runs can be read back. Plain libc calls; no extra dependency.
+unsafe extern "C" {
+    fn dup2(oldfd: i32, newfd: i32) -> i32;
+}
+
+struct StderrTap {
+    file: std::fs::File,
+    pos: u64,
+}
+
+impl StderrTap {
+    fn install() -> Option<StderrTap> {
+        use std::os::fd::AsRawFd;
+        if std::env::var("VH_KEEP_STDERR").is_ok() {
+            return None;
+        }
+        let path = std::env::temp_dir().join(format!("prop-run-stderr-{}", std::process::id()));
+        let file = std::fs::OpenOptions::new().create(true).truncate(true).read(true).write(true).open(&path).ok()?;
+        let _ = std::fs::remove_file(&path);
+        if unsafe { dup2(file.as_raw_fd(), 2) } < 0 {
+            return None;
+        }
+        Some(StderrTap { file, pos: 0 })
+    }
+
+    /// (number of "Simplified" events, total steps) written since the last call
+    fn take_steps(&mut self) -> (u64, u64) {
+        use std::io::{Read, Seek, SeekFrom};
+        let mut buf = String::new();
+        if self.file.seek(SeekFrom::Start(self.pos)).is_err() {
+            return (0, 0);
+        }
+        let mut raw = vec![];
+        let _ = self.file.read_to_end(&mut raw);
+        self.pos += raw.len() as u64;
+        buf.push_str(&String::from_utf8_lossy(&raw));
+        if self.pos > (8 << 20) {
+            let _ = self.file.set_len(0);
+            self.pos = 0;
+        }
+        let (mut events, mut steps) = (0, 0);
+        for line in buf.lines() {
+            if let Some(rest) = line.split(" after ").nth(1) {
+                if let Some(n) = rest.split(" steps").next().and_then(|x| x.trim().parse::<u64>().ok()) {
+                    events += 1;
+                    steps += n;
+                }
+            }
+        }
+        (events, steps)
+    }
+}
+
+thread_local! {
+    static TAP: std::cell::RefCell<Option<StderrTap>> = const { std::cell::RefCell::new(None) };
+}
+
+fn take_steps() -> (u64, u64) {
+    TAP.with(|t| t.borrow_mut().as_mut().map(|t| t.take_steps()).unwrap_or((0, 0)))
+}
+
 fn kind_of(s: Option<&str>) -> ModuleKind {
     match s {
         Some("lib") => ModuleKind::Lib,
@@ -276,11 +339,14 @@ fn do_job(job: &J) -> J {
     let mut firsts: Vec<(J, J)> = vec![];
     let mut canon: Vec<(String, String)> = vec![];
     let mut ms: Vec<u64> = vec![];
+    let mut steps: Vec<(u64, u64)> = vec![];
     let mut others: Vec<Vec<J>> = vec![];
     for (seed, n) in &runs {
         let t0 = Instant::now();
         let a = run_part(&test, *seed, *n, &pv);
+        let _ = take_steps();
         let b = run_n_times_part(&test, *seed, *n, &pv);
+        steps.push(take_steps());
         ms.push(t0.elapsed().as_millis() as u64);
         canon.push((a.to_string(), b.to_string()));
         firsts.push((a, b));
@@ -386,6 +452,7 @@ fn do_job(job: &J) -> J {
             "outcome": {"run": a, "run_n_times": b},
             "others": others[i],
             "ms": ms[i],
+            "simplify": {"events": steps[i].0, "steps": steps[i].1},
         }));
     }
     json!({"mode": mode_name(&test.on_test_failure), "runs": results, "loops": loops, "ms_loops": ms_loops})
@@ -397,6 +464,7 @@ fn main() {
     let h = std::thread::Builder::new()
         .stack_size(stack_mb << 20)
         .spawn(|| {
+            TAP.with(|t| *t.borrow_mut() = StderrTap::install());
             let stdin = std::io::stdin();
             let stdout = std::io::stdout();
             for line in stdin.lock().lines() {
